@@ -115,6 +115,7 @@ static inline void gp_thread_once(GPThreadOnce* flag, void(*init)(void))
 {
     GP_VERIF_SCHED_POINT("once", flag);
     call_once(flag, init);
+    GP_VERIF_SCHED_POINT("once-done", flag);
 }
 
 #else // standard threads not supported, use POSIX threads // --------------- //
@@ -179,6 +180,7 @@ static inline void gp_thread_once(GPThreadOnce* flag, void(*init)(void))
 {
     GP_VERIF_SCHED_POINT("once", flag);
     pthread_once(flag, init);
+    GP_VERIF_SCHED_POINT("once-done", flag);
 }
 
 #endif // environment specific wrappers
